@@ -63,4 +63,27 @@ theorem triangle_inside_in_bounding_box_of_inner_corners (t : Tri) (style : TriS
 example : TriInsideGuard ⟨⟨0, 0⟩, ⟨20, 3⟩, ⟨6, 18⟩⟩ 3 := by decide
 example : TriInsideGuard ⟨⟨-3, 2⟩, ⟨15, -9⟩, ⟨8, 14⟩⟩ 2 := by decide
 
+/-- **Center / Outside stroke of width > 1 (with or without fill): `draw` and `pixels()` stay inside
+`bounding_box()` when the x coordinates of the vertices lie in the COLUMNS of the stroke box** - the
+vertex clause of `TriStrokeGuard` weakened to what is used (a vertex above or below the box is
+harmless: only the rows of the box are iterated). `TriStrokeColumnsGuard` holds wherever
+`TriStrokeGuard` does (`triStrokeColumnsGuard_of_guard`) and on half of the slivers where it fails. -/
+theorem triangle_stroke_in_bounding_box_of_columns_partial (t : Tri) (style : TriStyle)
+    (hw : 2 ≤ style.strokeWidth) (hal : style.strokeAlignment ≠ .inside)
+    (hg : TriStrokeColumnsGuard t style) (bb : Rect) (hbb : triStyledBoundingBox t style = some bb) :
+    (∀ calls, triDraw t style = some calls →
+      ∀ rc ∈ calls, ∀ p, rc.1.contains p = true → bb.contains p = true) ∧
+    (∀ px, triPixels t style = some px → ∀ pc ∈ px, bb.contains pc.1 = true) := by
+  obtain ⟨hmin, ctx⟩ := triCtx_stroke_columns t style hw hal hg bb hbb
+  exact ⟨fun calls hd => triDraw_in_box t style bb hbb hmin (fun c _ => ctx c) calls hd,
+    fun px hpx => triPixels_in_box t style bb hbb hmin (fun c _ => ctx c) px hpx⟩
+
+-- the filled sliver of the quick run on which `TriStrokeGuard` fails: its vertex (2, 3) lies BELOW the
+-- stroke box (rows -6 ..= 2), inside its columns
+example : TriStrokeColumnsGuard ⟨⟨0, 0⟩, ⟨-5, -5⟩, ⟨2, 3⟩⟩ ⟨some 1, some 2, 3, .center⟩ := by decide
+example : triStyledBoundingBox ⟨⟨0, 0⟩, ⟨-5, -5⟩, ⟨2, 3⟩⟩ ⟨some 1, some 2, 3, .center⟩ =
+    some ⟨⟨-6, -6⟩, ⟨10, 9⟩⟩ := by decide
+-- a sliver with a vertex left of the stroke box (columns -5 ..= 6): still outside the proof
+example : ¬ TriStrokeColumnsGuard ⟨⟨0, 0⟩, ⟨-6, 4⟩, ⟨5, -5⟩⟩ ⟨some 1, some 2, 3, .center⟩ := by decide
+
 end EG.C02.JoinsBBoxAlign
